@@ -62,32 +62,50 @@ Proof.
 Qed.
 
 (* the image of a closed bit stream read as an array of its bit length: the bytes themselves *)
+(* the last byte of an image with [pad] zero bits at the end *)
+Lemma last_byte_split last pad : last < 256 -> 0 < pad < 8 -> last mod 2 ^ pad = 0 ->
+  let t := 8 - pad in let q := last / 2 ^ pad in
+  q < 2 ^ t /\ last = q * 2 ^ pad /\ 256 = 2 ^ t * 2 ^ pad.
+Proof.
+  intros Hl Hp Hz t q.
+  assert (Hpp : 256 = 2 ^ t * 2 ^ pad).
+  { rewrite <- N.pow_add_r. unfold t. replace (8 - pad + pad) with 8 by (clear - Hp; lia). reflexivity. }
+  pose proof (div_exact_pow last pad Hz) as Hle. fold q in Hle.
+  split; [|split; [exact Hle|exact Hpp]].
+  apply N.div_lt_upper_bound; [apply N.pow_nonzero; discriminate|]. rewrite N.mul_comm, <- Hpp. exact Hl.
+Qed.
+
+Lemma div8_unique m t : t < 8 -> (8 * m + t) / 8 = m /\ (8 * m + t) mod 8 = t.
+Proof.
+  intros Ht. split; [symmetry; apply (N.div_unique _ 8 m t); [exact Ht|reflexivity]|symmetry; apply (N.mod_unique _ 8 m t); [exact Ht|reflexivity]].
+Qed.
+
 Lemma bytes_of_image I w pad : bytes_ok I -> 8 * N.of_nat (length I) = w + pad -> pad < 8 -> be_val I mod 2 ^ pad = 0 ->
   bytes_of (be_val I / 2 ^ pad) w w = I.
 Proof.
   intros Hb Hl Hp Hz. destruct (N.eq_dec pad 0) as [->|Hp0].
   - change (2 ^ 0) with 1. rewrite N.div_1_r. rewrite N.add_0_r in Hl. rewrite <- Hl. apply bytes_of_whole. exact Hb.
-  - induction I as [|last I' _] using rev_ind; [cbn [length N.of_nat] in Hl; lia|].
-    apply Forall_app in Hb. destruct Hb as [Hb' Hlast]. inversion Hlast as [|? ? Hl256 _]; subst.
+  - induction I as [|last I' _] using rev_ind; [cbn [length N.of_nat] in Hl; clear - Hl Hp Hp0; lia|].
+    apply Forall_app in Hb. destruct Hb as [Hb' Hlast]. apply Forall_inv in Hlast as Hl256.
     rewrite app_length in Hl. cbn [length] in Hl.
     set (m := length I') in *. set (t := 8 - pad).
-    assert (Ew : w = 8 * N.of_nat m + t) by (unfold t; lia).
-    rewrite be_val_app in Hz |- *. cbn [be_val length] in Hz |- *. change (N.of_nat 1) with 1 in *. change (N.of_nat 0) with 0 in *.
-    change (2 ^ (8 * 1)) with 256 in *. change (2 ^ (8 * 0)) with 1 in *.
-    replace (last * 1 + 0) with last in * by lia.
-    assert (Hpp : 256 = 2 ^ t * 2 ^ pad) by (rewrite <- N.pow_add_r; unfold t; replace (8 - pad + pad) with 8 by lia; reflexivity).
+    assert (Ht : 0 < t < 8) by (unfold t; clear - Hp Hp0; lia).
+    assert (Ew : w = 8 * N.of_nat m + t) by (unfold t; clear - Hl Hp; lia).
+    assert (Ev : be_val (I' ++ [last]) = be_val I' * 256 + last).
+    { rewrite be_val_app. cbn [be_val length]. change (N.of_nat 1) with 1. change (N.of_nat 0) with 0.
+      change (2 ^ (8 * 1)) with 256. change (2 ^ (8 * 0)) with 1. clear. lia. }
+    rewrite Ev in Hz |- *.
     assert (Hlz : last mod 2 ^ pad = 0).
-    { rewrite Hpp in Hz. rewrite N.mul_assoc in Hz. rewrite N.add_comm in Hz. rewrite N.mod_add in Hz by (apply N.pow_nonzero; discriminate). exact Hz. }
-    pose proof (div_exact_pow last pad Hlz) as Hle. set (q := last / 2 ^ pad) in *.
-    assert (Hq : q < 2 ^ t).
-    { apply N.div_lt_upper_bound; [apply N.pow_nonzero; discriminate|]. rewrite N.mul_comm, <- Hpp. exact Hl256. }
+    { assert (Hpp : 256 = 2 ^ t * 2 ^ pad) by (rewrite <- N.pow_add_r; unfold t; replace (8 - pad + pad) with 8 by (clear - Hp; lia); reflexivity).
+      rewrite Hpp in Hz. rewrite N.mul_assoc in Hz. rewrite N.add_comm in Hz. rewrite N.mod_add in Hz by (apply N.pow_nonzero; discriminate). exact Hz. }
+    destruct (last_byte_split last pad Hl256 ltac:(clear - Hp Hp0; lia) Hlz) as (Hq & Hle & Hpp). cbv zeta in Hq, Hle, Hpp. fold t in Hq, Hpp.
+    set (q := last / 2 ^ pad) in *.
     assert (EX : (be_val I' * 256 + last) / 2 ^ pad = be_val I' * 2 ^ t + q).
-    { rewrite Hpp, Hle. replace (be_val I' * (2 ^ t * 2 ^ pad) + q * 2 ^ pad) with ((be_val I' * 2 ^ t + q) * 2 ^ pad) by lia.
+    { rewrite Hpp, Hle. replace (be_val I' * (2 ^ t * 2 ^ pad) + q * 2 ^ pad) with ((be_val I' * 2 ^ t + q) * 2 ^ pad) by (clear; lia).
       apply N.div_mul. apply N.pow_nonzero; discriminate. }
     rewrite EX. unfold bytes_of.
-    assert (Ediv : w / 8 = N.of_nat m /\ w mod 8 = t).
-    { rewrite Ew. split; [symmetry; apply (N.div_unique _ 8 (N.of_nat m) t); [unfold t; lia|reflexivity]|symmetry; apply (N.mod_unique _ 8 (N.of_nat m) t); [unfold t; lia|reflexivity]]. }
-    destruct Ediv as [E1 E2]. rewrite E1, E2, Nat2N.id. replace (t =? 0) with false by (symmetry; apply N.eqb_neq; clear - Hp Hp0; unfold t; lia).
+    destruct (div8_unique (N.of_nat m) t ltac:(clear - Ht; lia)) as [E1 E2]. rewrite <- Ew in E1, E2.
+    rewrite E1, E2, Nat2N.id. replace (t =? 0) with false by (symmetry; apply N.eqb_neq; clear - Ht; lia).
     rewrite N.sub_diag. change (2 ^ 0) with 1. rewrite N.div_1_r.
     replace (w - 8 * N.of_nat m) with t by (clear - Ew; lia).
     rewrite N.div_add_l by (apply N.pow_nonzero; discriminate). rewrite (N.div_small q _ Hq), N.add_0_r.
